@@ -15,7 +15,11 @@
 (*   where ... end         a subquery in WHERE                             *)
 (*   isub ... end          a scalar subquery in the select list            *)
 (*   having ... end        a subquery in HAVING                            *)
+(*   on ... end            a subquery in the ON condition of the join just *)
+(*                         written                                         *)
 (*   union                 next branch of the enclosing query              *)
+(*   ubranch ... end       next branch, itself a parenthesised query (with *)
+(*                         branches of its own): a nested set operation    *)
 (*   end                   closes the innermost open query                 *)
 (* join = first | comma | inner.  The generator decides cteref/tbl by what *)
 (* the name MEANS in SQL (a CTE is visible after its definition); the      *)
@@ -31,6 +35,10 @@
 (*   D_SCALAR_SUBQUERY_BLIND     a subquery directly in the select list is *)
 (*                               not searched                              *)
 (*   D_HAVING_SUBQUERY_BLIND     a subquery in HAVING is not searched      *)
+(*   D_ON_SUBQUERY_BLIND         a subquery in a JOIN ... ON condition is  *)
+(*                               not searched (repaired: KF-C01-9)         *)
+(*   D_NESTED_SET_OPERATION_BLIND  a parenthesised branch that is a set    *)
+(*                               operation itself is skipped (KF-C01-10)   *)
 (*   D_CTE_VISIBLE_IN_OWN_BODY   a CTE is registered before its body is    *)
 (*                               extracted, so its own name inside the     *)
 (*                               body resolves to itself, not to the table *)
@@ -57,7 +65,9 @@ Tbl(s, n) == (IF s # None THEN s ELSE IF ds # None THEN ds ELSE "<default>") \o 
 \* a frame = one query scope.  groups: the comma-separated from_expressions, each a sequence of relation
 \* contributions <<intended set of tables, deviant set>>; extra: tables found through WHERE / select-list / HAVING subqueries
 Frame(role) == [role |-> role, groups |-> <<>>, extra |-> {}, extraDev |-> {}, acc |-> {}, accDev |-> {},
-                wh |-> FALSE, it |-> FALSE, hv |-> FALSE, br |-> 1]
+                wh |-> FALSE, it |-> FALSE, hv |-> FALSE, br |-> 1,
+                on |-> FALSE,      \* the last FROM item was joined with ON and its condition has no subquery yet
+                nb |-> FALSE]      \* the last branch was a nested set operation: the query can only end now
 Top == stack[Len(stack)]
 SetTop(f) == [stack EXCEPT ![Len(stack)] = f]
 Pop == SubSeq(stack, 1, Len(stack) - 1)
@@ -66,8 +76,8 @@ RECURSIVE SumLen(_, _)
 SumLen(g, i) == IF i = 0 THEN 0 ELSE Len(g[i]) + SumLen(g, i - 1)
 NRel(f) == SumLen(f.groups, Len(f.groups))
 AddRel(f, join, c, cd) ==
-   IF join \in {"first", "comma"} THEN [f EXCEPT !.groups = Append(@, << <<c, cd>> >>)]
-   ELSE [f EXCEPT !.groups[Len(f.groups)] = Append(@, <<c, cd>>)]
+   IF join \in {"first", "comma"} THEN [f EXCEPT !.groups = Append(@, << <<c, cd>> >>), !.on = FALSE]
+   ELSE [f EXCEPT !.groups[Len(f.groups)] = Append(@, <<c, cd>>), !.on = TRUE]
 InParen == stack # <<>> /\ Top.role \in {"paren:first", "paren:comma", "paren:inner"}
 Joins == IF Top.groups = <<>> THEN {"first"} ELSE IF InParen THEN {"inner"} ELSE {"inner", "comma"}
 Contribution(f) == UNION {UNION {f.groups[i][j][1] : j \in DOMAIN f.groups[i]} : i \in DOMAIN f.groups}
@@ -77,7 +87,7 @@ ContributionDev(f) ==
    THEN UNION {f.groups[i][1][2] : i \in DOMAIN f.groups}
    ELSE UNION {UNION {f.groups[i][j][2] : j \in DOMAIN f.groups[i]} : i \in DOMAIN f.groups}
 CloseBranch(f) == [f EXCEPT !.acc = @ \cup Contribution(f) \cup f.extra, !.accDev = @ \cup ContributionDev(f) \cup f.extraDev,
-                            !.groups = <<>>, !.extra = {}, !.extraDev = {}, !.wh = FALSE, !.it = FALSE, !.hv = FALSE]
+                            !.groups = <<>>, !.extra = {}, !.extraDev = {}, !.wh = FALSE, !.it = FALSE, !.hv = FALSE, !.on = FALSE]
 \* which cte body are we in (outermost frame's role when it is a cte)
 InCteBody == IF stack # <<>> /\ stack[1].role \notin {"top"} THEN stack[1].role ELSE None
 
@@ -96,7 +106,7 @@ Main == /\ phase = "with" /\ Room /\ prog' = Append(prog, Ev("main", None, None,
 \* a FROM name.  What it means: an undotted name equal to a CTE defined EARLIER is that CTE; anything else is a table.
 \* What the machine does: looks the undotted name up among the registered CTEs - under D_CTE_VISIBLE_IN_OWN_BODY that
 \* includes the CTE whose body is being read.
-FromName == /\ phase = "body" /\ Room /\ NRel(Top) < MaxRel
+FromName == /\ phase = "body" /\ Room /\ NRel(Top) < MaxRel /\ ~Top.nb
             /\ \E j \in Joins, s \in Schemas, n \in TblNames \cup ctes :
                  LET meantCte == (s = None /\ n \in ctes)
                      selfCte == ("D_CTE_VISIBLE_IN_OWN_BODY" \in Known /\ s = None /\ n = InCteBody)
@@ -108,9 +118,9 @@ FromName == /\ phase = "body" /\ Room /\ NRel(Top) < MaxRel
             /\ UNCHANGED <<ds, ctes, phase, out, outDev>>
 Push(ev, role, f) == /\ phase = "body" /\ Room /\ Len(stack) <= MaxDepth /\ prog' = Append(prog, ev)
                      /\ stack' = Append(SetTop(f), Frame(role)) /\ UNCHANGED <<ds, ctes, phase, out, outDev, fired>>
-FromSub == /\ phase = "body" /\ NRel(Top) < MaxRel /\ \E j \in Joins : Push(Ev("sub", j, None, None), "derived:" \o j, Top)
+FromSub == /\ phase = "body" /\ NRel(Top) < MaxRel /\ ~Top.nb /\ \E j \in Joins : Push(Ev("sub", j, None, None), "derived:" \o j, Top)
 \* a parenthesised join is a FROM item made of FROM items: it opens a frame that takes relations only
-FromParen == /\ phase = "body" /\ NRel(Top) < MaxRel /\ "paren" \in Clauses
+FromParen == /\ phase = "body" /\ NRel(Top) < MaxRel /\ "paren" \in Clauses /\ ~Top.nb
              /\ \E j \in Joins : Push(Ev("paren", j, None, None), "paren:" \o j, Top)
 WhereSub == /\ phase = "body" /\ NRel(Top) >= 1 /\ ~Top.wh /\ ~Top.hv /\ "where" \in Clauses /\ ~InParen
             /\ Push(Ev("where", None, None, None), "where", [Top EXCEPT !.wh = TRUE])
@@ -120,13 +130,20 @@ ItemSub == /\ phase = "body" /\ NRel(Top) >= 1 /\ ~Top.it /\ ~Top.wh /\ ~Top.hv 
            /\ Push(Ev("isub", None, None, None), "scalar", [Top EXCEPT !.it = TRUE])
 HavingSub == /\ phase = "body" /\ NRel(Top) >= 1 /\ ~Top.hv /\ "having" \in Clauses /\ ~TopOfUpdate /\ ~InParen
              /\ Push(Ev("having", None, None, None), "having", [Top EXCEPT !.hv = TRUE])
+\* JOIN x ON c1 IN (SELECT ...): the condition of the join just written reads tables like WHERE does
+OnSub == /\ phase = "body" /\ NRel(Top) >= 2 /\ Top.on /\ "on" \in Clauses /\ ~InParen
+         /\ Push(Ev("on", None, None, None), "on", [Top EXCEPT !.on = FALSE])
+\* the next branch is a parenthesised query with a set operation of its own: SELECT .. UNION ( SELECT .. UNION SELECT .. )
+NestedBranch == /\ phase = "body" /\ NRel(Top) >= 1 /\ Top.br < 2 /\ "ubranch" \in Clauses
+                /\ Top.role \notin {"where", "scalar", "having", "on"} /\ ~TopOfUpdate /\ ~InParen
+                /\ Push(Ev("ubranch", None, None, None), "setbranch", [CloseBranch(Top) EXCEPT !.br = @ + 1, !.nb = TRUE])
 Union == /\ phase = "body" /\ Room /\ NRel(Top) >= 1 /\ Top.br < 2 /\ "union" \in Clauses
-         /\ Top.role \notin {"where", "scalar", "having"} /\ ~TopOfUpdate /\ ~InParen
+         /\ Top.role \notin {"where", "scalar", "having", "on"} /\ ~TopOfUpdate /\ ~InParen
          /\ prog' = Append(prog, Ev("union", None, None, None))
          /\ stack' = SetTop([CloseBranch(Top) EXCEPT !.br = @ + 1])
          /\ fired' = IF Mixed(Top) /\ Contribution(Top) # ContributionDev(Top) THEN fired \cup {"D_COMMA_JOIN_DROPS_JOINED"} ELSE fired
          /\ UNCHANGED <<ds, ctes, phase, out, outDev>>
-End == /\ phase = "body" /\ NRel(Top) >= (IF InParen THEN 2 ELSE 1) /\ prog' = Append(prog, Ev("end", None, None, None)) /\ UNCHANGED ds
+End == /\ phase = "body" /\ (NRel(Top) >= (IF InParen THEN 2 ELSE 1) \/ Top.nb) /\ (Top.role = "setbranch" => Top.br = 2) /\ prog' = Append(prog, Ev("end", None, None, None)) /\ UNCHANGED ds
        /\ LET f == CloseBranch(Top)
               mixed == Mixed(Top) /\ Contribution(Top) # ContributionDev(Top) IN
           IF Len(stack) = 1
@@ -135,18 +152,24 @@ End == /\ phase = "body" /\ NRel(Top) >= (IF InParen THEN 2 ELSE 1) /\ prog' = A
                /\ IF f.role # "top" THEN phase' = "with" /\ ctes' = ctes \cup {f.role} ELSE phase' = "done" /\ ctes' = ctes
           ELSE LET p == stack[Len(stack) - 1]
                    blindS == f.role = "scalar" /\ "D_SCALAR_SUBQUERY_BLIND" \in Known
-                   blindH == f.role = "having" /\ "D_HAVING_SUBQUERY_BLIND" \in Known IN
+                   blindH == f.role = "having" /\ "D_HAVING_SUBQUERY_BLIND" \in Known
+                   blindO == f.role = "on" /\ "D_ON_SUBQUERY_BLIND" \in Known
+                   blindN == f.role = "setbranch" /\ "D_NESTED_SET_OPERATION_BLIND" \in Known IN
                /\ UNCHANGED <<out, outDev, phase, ctes>>
                /\ fired' = fired \cup (IF mixed THEN {"D_COMMA_JOIN_DROPS_JOINED"} ELSE {})
                                  \cup (IF blindS /\ f.accDev # {} THEN {"D_SCALAR_SUBQUERY_BLIND"} ELSE {})
                                  \cup (IF blindH /\ f.accDev # {} THEN {"D_HAVING_SUBQUERY_BLIND"} ELSE {})
+                                 \cup (IF blindO /\ f.accDev # {} THEN {"D_ON_SUBQUERY_BLIND"} ELSE {})
+                                 \cup (IF blindN /\ f.accDev # {} THEN {"D_NESTED_SET_OPERATION_BLIND"} ELSE {})
                /\ stack' = [Pop EXCEPT ![Len(stack) - 1] =
-                    IF f.role \in {"where", "scalar", "having"}
-                    THEN [p EXCEPT !.extra = @ \cup f.acc, !.extraDev = @ \cup (IF blindS \/ blindH THEN {} ELSE f.accDev)]
+                    IF f.role \in {"where", "scalar", "having", "on"}
+                    THEN [p EXCEPT !.extra = @ \cup f.acc, !.extraDev = @ \cup (IF blindS \/ blindH \/ blindO THEN {} ELSE f.accDev)]
+                    ELSE IF f.role = "setbranch"
+                    THEN [p EXCEPT !.acc = @ \cup f.acc, !.accDev = @ \cup (IF blindN THEN {} ELSE f.accDev)]
                     ELSE AddRel(p, IF f.role \in {"derived:first", "paren:first"} THEN "first"
                                    ELSE IF f.role \in {"derived:comma", "paren:comma"} THEN "comma" ELSE "inner",
                                 f.acc, f.accDev)]
-Next == Start \/ CteOpen \/ Main \/ FromName \/ FromSub \/ FromParen \/ WhereSub \/ ItemSub \/ HavingSub \/ Union \/ End
+Next == Start \/ CteOpen \/ Main \/ FromName \/ FromSub \/ FromParen \/ WhereSub \/ ItemSub \/ HavingSub \/ OnSub \/ Union \/ NestedBranch \/ End
 Spec == Init /\ [][Next]_vars
 
 \* ---------------------------------------------------------------- the property, read off the program alone
